@@ -330,6 +330,65 @@ def validate(ctx, traces):
     return rejected
 
 
+QUICK_TESTS = ["tests/test_parsers.py", "tests/test_overlap.py", "tests/test_overlap_asymm.py", "tests/test_electrostatic_potential.py",
+               "tests/test_eval.py", "tests/test_kinetic_energy.py", "tests/test_momentum.py", "tests/test_moment.py",
+               "tests/test_point_charge.py", "tests/test_nuclear_electron_attraction.py", "tests/test_angular_momentum.py"]
+
+
+def suite_histories(ctx, quick):
+    """Run the repository's own tests under the recorder and validate the recorded histories with Trace_Calls.tla."""
+    import subprocess
+    from .. import gb
+    d = tlc.scratch("suite")
+    out = os.path.join(d, "suite.json")
+    env = dict(os.environ, GBV_TRACE_OUT=out, PYTHONPATH=gb.REPO + os.pathsep + os.path.join(tlc.VERIF, "harness"))
+    cmd = ["/venv/bin/python", "-m", "pytest", "-q", "-x", "-p", "gbv.recorder", "-p", "no:cacheprovider", "--timeout=900"] + (QUICK_TESTS if quick else ["tests"])
+    p = subprocess.run(cmd, cwd=gb.REPO, env=env, stdout=subprocess.PIPE, stderr=subprocess.STDOUT, text=True)
+    if not os.path.exists(out):
+        tlc.cleanup(d)
+        raise tlc.MachineryError("the recorder produced no histories:\n" + p.stdout[-1500:])
+    with open(out) as fh:
+        rec = json.load(fh)["traces"]
+    names = sorted(k for k in rec if rec[k])
+    traces = [rec[k] for k in names]
+    ctx.extra["repository_tests_recorded"] = len(names)
+    ctx.extra["repository_test_events"] = sum(len(t) for t in traces)
+    ctx.extra["repository_tests_outcome"] = p.stdout.strip().splitlines()[-1] if p.stdout.strip() else ""
+    rejected = []
+    pending = list(range(len(traces)))
+    rounds = 0
+    while pending and rounds < 30:
+        rounds += 1
+        tlc.write_module(d, "SuiteData", "\nSuiteTraces == %s\n" % tlc.tla_value([traces[i] for i in pending]), extends=())
+        tlc.write_module(d, "MC_Suite", "\nVARIABLES tid, l, memo\nINSTANCE Trace_Calls WITH Traces <- SuiteTraces\n",
+                         extends=("Integers", "Sequences", "TLC", "SuiteData"))
+        res = tlc.run(d, "MC_Suite", "SPECIFICATION Spec\nINVARIANT NotStuck\n", workers=4, timeout=1800)
+        ctx.add_tlc("Trace_Calls: %d histories recorded from the repository's own tests (%d calls)" % (
+            len(pending), sum(len(traces[i]) for i in pending)), res)
+        if res.ok:
+            break
+        import re
+        m = re.findall(r"/\\ tid = (\d+)", res.out)
+        ml = re.findall(r"/\\ l = (\d+)", res.out)
+        if not m or not ml:
+            tlc.cleanup(d)
+            raise tlc.MachineryError("cannot locate the rejected event:\n" + res.out[-1500:])
+        ti, li = int(m[-1]) - 1, int(ml[-1]) - 1
+        rejected.append((names[pending[ti]], traces[pending[ti]][li]))
+        pending.pop(ti)
+    tlc.cleanup(d)
+    return rejected
+
+
+def diagnose_suite(ev):
+    ch = [a[0] for a in ev["args"] if a[1] != a[2]]
+    if ch:
+        return "%s changed its argument object(s) %s" % (ev["f"], ch)
+    if ev["errpre"] != ev["errpost"]:
+        return "%s left numpy's floating-point error settings changed" % ev["f"]
+    return "%s answered differently than an earlier call of the same test with the same argument values" % ev["f"]
+
+
 def run(pid, tier, seed, only_case=None):
     ctx = common.Ctx(pid, tier, seed)
     ctx.write_evidence = ctx.write_evidence and only_case is None
@@ -359,8 +418,12 @@ def run(pid, tier, seed, only_case=None):
         msg = "behaviour %d, event %d: %s" % (ti, li + 1, diagnose(ev))
         key = {"function": ev.get("f", ev["op"]), "kind": "trace rejected by Trace_Session"}
         ctx.violation(key, msg, {"module": "c19", "case": {"steps": behaviours[ti]}})
-    ctx.replayed = len(traces)
-    ctx.evaluations = nev
+    if only_case is None:
+        for test, ev in suite_histories(ctx, quick):
+            ctx.violation({"function": ev["f"], "kind": "history of a repository test rejected by Trace_Calls"},
+                          "%s: %s" % (test, diagnose_suite(ev)), {"module": "c19", "case": {"steps": [["call", "make_contractions"]], "test": test}})
+    ctx.replayed = len(traces) + ctx.extra.get("repository_tests_recorded", 0)
+    ctx.evaluations = nev + ctx.extra.get("repository_test_events", 0)
     for b in behaviours:
         ctx.distinct.add(json.dumps(b))
     ctx.extra.update({"events_validated": nev, "functions_exercised": len({e.get("f") for t in traces for e in t if e.get("f")}),
